@@ -886,7 +886,7 @@ PROPS = {
     ),
     "C16": dict(
         retry_on_failure=True,
-        suites=["c16"],
+        suites=["c16", "c16h3"],
         judge=judge_c16,
         level="proof",
         rule="17 directed and 120 (thorough 1200) random histories of 4-16 events {open an HTTP/1.1 or HTTP/2 session, client drops a "
@@ -899,7 +899,13 @@ PROPS = {
              "exported families, types and label names/values against METRICS.md"
              " When raw sockets are permitted the histories also open ICMP multiplexer tunnels and send echo requests to "
              "127.0.0.1 (answered by the kernel: counted both ways with their on-the-wire length) and to an IPv6 peer with IPv6 "
-             "switched off (dropped by the forwarder: counted nowhere); origin half-closes are part of the histories",
+             "switched off (dropped by the forwarder: counted nowhere); origin half-closes are part of the histories."
+             " Live HTTP/3 part (suite c16h3, wall clock, no model: the property is checked directly): the real Core::listen with its "
+             "metrics listener; 3 (thorough 12) histories of 1-3 QUIC sessions, 1-4 CONNECT tunnels to a loopback origin, transfers of "
+             "0-90000 bytes each way, tunnels ended by the client's FIN then the origin, by the origin, or by a stream reset, sessions "
+             "closed by the client with their remaining tunnels; after every step GET /metrics must (within 3 s) show "
+             "client_sessions{http3} and outbound_tcp_sockets equal to what is alive, the http3 traffic counters equal to what was "
+             "relayed, the http1 / http2 series and outbound_udp_sockets untouched, and /health-check 200",
         explanation="theorems cells_equal_objects, gauges_nonneg, all_clients_gone_sessions_udp_zero, all_clients_gone_everything_zero, "
                     "refused_connect_balanced, hanging_connect_released_by_timeout, counters_monotone, up_adds_exactly, "
                     "down_adds_exactly, no_relay_no_bytes, half_closed_tunnel_released_when_both_ended, icmp_counts_only_relayed, udp_bytes_follow_multiplexer, documented_series, documented_paths about "
@@ -911,8 +917,9 @@ PROPS = {
                  "and UDP expiry are exact",
                  "client_sessions counts tunnel sessions (Core::on_tunnel_request); ping / speedtest / reverse-proxy connections hold "
                  "no guard in the code and are not driven here",
-                 "HTTP/3 sessions and the SOCKS5 forwarder's TCP path are not driven (its UDP multiplexer is, by C07's SOCKS5 suite); ICMP "
-                 "traffic only where raw sockets are permitted",
+                 "HTTP/3 sessions are outside the Lean model (Proto has two values): their series are checked by the live suite as a "
+                 "direct oracle, with 'quiescent' read as 'within 3 s of the last action'; the SOCKS5 forwarder's TCP path is not driven "
+                 "(its UDP multiplexer is, by C07's SOCKS5 suite); ICMP traffic only where raw sockets are permitted",
                  "prometheus crate text encoding; Linux loopback TCP (origin sockets use TCP_NODELAY) and a full accept queue to make a "
                  "connect hang"],
         assumptions=["an origin connection whose client vanished lingers until the endpoint next writes to the client or the tunnel "
